@@ -780,6 +780,8 @@ func mapOrder(u unit) *result {
 				if (op.Kind == "validate" || op.Kind == "gen") && first.status() != "error" {
 					res.report("C14|maporder|"+op.Name+"|invalid-schema-accepted", fmt.Sprintf("%s on the invalid schema %s returned %s under map iteration start 0", op.Name, base, first.status()), map[string]any{"sub": "maporder", "schema": path, "ops": []string{op.Name}, "r": []int{0, 0}})
 				}
+			} else if strings.Contains(path, "/schemas/odd-") {
+				// accepted or rejected: only sameness under every order is asked
 			} else if strings.Contains(path, "/schemas/") && first.status() != "ok" {
 				// the harness's own schemas are valid: an operation that fails on them would make every comparison vacuous
 				fatal("%s on the built-in schema %s does not succeed (%s %q): the schema has to be repaired", op.Name, path, first.status(), first.ErrText+first.Panic)
